@@ -86,6 +86,8 @@ FalsyLeaves == { <<"int">>, <<"float">>, <<"bool">>, <<"str">>, <<"bytes">>, <<"
 AllTypes == Types \cup { Holder(t) : t \in Types } \cup { PlainHolder(t) : t \in Types }
             \cup (IF Depth = 1 THEN { Chain3(Holder(t)) : t \in Leaves \ { <<"none">> } } \cup { Chain3(PlainHolder(t)) : t \in RepLeaves } ELSE {})
             \cup { FalsyHolder(t, FirstOf(Smp(t))) : t \in Types \cap FalsyLeaves }
+            \* a subclass of a format-mixin class whose fields refer to typing.Self (Gen.tla): nested documents are documents of the SUBCLASS
+            \cup (IF Depth = 1 THEN SelfFams ELSE {})
 
 Cx == DefaultCx
 
@@ -104,8 +106,9 @@ J == JScalars \cup JLists \cup JDicts
 
 Init == T = <<"start">> /\ v = <<"nov">> /\ kind = "start"
 Next == \/ kind = "start" /\ T' \in AllTypes /\ v' = v /\ kind' = "type"
-        \/ kind = "type" /\ T' = T /\ v' \in Range(Smp(T)) /\ kind' = "value"
+        \/ kind = "type" /\ T \notin SelfFams /\ T' = T /\ v' \in Range(Smp(T)) /\ kind' = "value"    \* (the Self family is unfolded to a finite depth: only its hand-written documents are inputs)
         \/ kind = "type" /\ Foreign /\ T' = T /\ v' \in J /\ kind' = "input"
+        \/ kind = "type" /\ T \in SelfFams /\ T' = T /\ v' \in SelfInputs /\ kind' = "input"
 
 \* a wire form is a list where the reference says "list in iteration order of a set"
 RECURSIVE Listify(_)
